@@ -39,6 +39,8 @@ BASE_TYPES = [("i", "45", "UAReferenceType", "HasSubtype"), ("i", "47", "UARefer
 def gen_graph(rng, n_ns=2, n_nodes=6, hostile=True, with_values=True, dangling=True, closed_base=True, value_gen=None):
     g = Graph()
     g.uris = ["urn:test:ns%d" % i if rng.random() < 0.7 else "http://example.org/UA/%d/" % i for i in range(n_ns)]
+    if n_ns >= 2 and rng.random() < 0.2:      # two namespaces whose URIs differ only in a final slash (URIs are opaque: they are different namespaces)
+        g.uris[1] = g.uris[0][:-1] if g.uris[0].endswith("/") else g.uris[0] + "/"
     # base namespace nodes (always defined in the base document)
     for t, ident, cls, name in BASE_TYPES:
         k = (UA, t, ident)
@@ -192,7 +194,8 @@ def serialise(g, rng, base_name="Opc.Ua.NodeSet2.xml", placement=None, file_name
             refs = []
             for h, ty, f, o in decl:
                 if h != k: continue
-                fwd = None if (f and rng.random() < 0.6) else ("true" if f else "false")
+                # only the literal "false" turns a reference round: every other spelling (absent, true, the schema's "1", other capitalisations) is forward
+                fwd = None if (f and rng.random() < 0.5) else ((rng.choice(["true", "true", "1", "True", "TRUE"])) if f else "false")
                 refs.append((nid_text(ty, local, alias_of, rng), fwd, nid_text(o, local) + (rng.choice(["", " ", "\n      "]) if rng.random() < 0.2 else "")))
             rng.shuffle(refs)
             disp = [n["display"]] if n["display"] is not None else []
@@ -210,6 +213,7 @@ def serialise(g, rng, base_name="Opc.Ua.NodeSet2.xml", placement=None, file_name
             models = [dict(attrs=[("ModelUri", UA), ("Version", "1.04.7"), ("PublicationDate", "2020-07-15T00:00:00Z")], required=[])]
         fname = names.get(U) or (base_name if U == UA else "ns_%02d_%s%s.xml" % (rng.randint(0, 99), "".join(c for c in U if c.isalnum())[-8:], "_b" if part_no else ""))
         d = dict(uris=local[1:] if (len(local) > 1 or rng.random() < 0.5) else None, models=models, aliases=alias_list if (alias_list or rng.random() < 0.5) else None, nodes=nodes)
+        while any(fname == x[0] for x in out): fname = fname[:-4] + "_.xml"
         out.append((fname, d, local))
     return out
 
@@ -258,6 +262,11 @@ def add_enums(g, rng, n_types=None, n_vars=None, flavours=None, kinds=None, plac
             g.refs.append((tk, pk, (UA, "i", "46")))
         desc["types"][tk] = (flavour, mapping, name)
     tks = list(desc["types"])
+    if tks and rng.random() < 0.5:
+        tk0 = rng.choice(tks); m0 = desc["types"][tk0][1]
+        vt = (uri, "i", str(3400)); x0 = rng.choice(sorted(m0)) if m0 else 1
+        g.nodes[vt] = dict(cls="UAVariableType", bname=(uri, "EnumVarType"), display="EnumVarType", desc=None, attrs={"DataType": tk0}, value=T.UAInt32(x0)); g.order.append(vt)
+        g.refs.append(((UA, "i", "63"), vt, (UA, "i", "45")))
     nv = rng.randint(0, 4) if n_vars is None else n_vars
     for i in range(nv):
         if not tks: break
